@@ -35,6 +35,8 @@ CLIENT_CALLS: t.Dict[str, t.Tuple[t.Callable[[t.Any], t.Any], t.Callable[[int], 
     ),
     "ext": (lambda c: c.extended_request("1.2", b"v"), lambda i: L.ExtendedRequest(i, [], "1.2", b"v")),
     "unbind": (lambda c: c.unbind(), lambda i: L.UnbindRequest(0, [])),
+    # an extended operation the library knows by name (StartTLS): named operations must not change who may speak when
+    "ext_tls": (lambda c: c.extended_request(TLS), lambda i: L.ExtendedRequest(i, [], TLS, None)),
     # only used by the long scenarios: a 70 000-octet value
     "ext_big": (lambda c: c.extended_request("1.2", b"V" * 70000), lambda i: L.ExtendedRequest(i, [], "1.2", b"V" * 70000)),
 }
@@ -44,7 +46,11 @@ def _r(code: t.Any = C.SUCCESS, diag: str = "") -> t.Any:
     return L.LDAPResult(code, "", diag, [])
 
 
+TLS = "1.3.6.1.4.1.1466.20037"
+VARIANTS = False  # the second exploration adds the StartTLS-named request / response to the alphabet
+
 SERVER_CALLS: t.Dict[str, t.Tuple[t.Callable[[t.Any, int], t.Any], t.Callable[[int], t.Any]]] = {
+    "extresp_tls": (lambda s, i: s.extended_response(i, TLS), lambda i: L.ExtendedResponse(i, [], _r(), TLS, None)),
     "bind_ok": (lambda s, i: s.bind_response(i), lambda i: L.BindResponse(i, [], _r(), None)),
     "bind_bad": (
         lambda s, i: s.bind_response(i, None, C.INVALID_CREDENTIALS, diagnostics_message="no"),
@@ -99,6 +105,8 @@ def enabled(w: World, kmax: int) -> t.List[Ev]:
     if w.c.state != S.CLOSED:
         if w.issued < kmax:
             ev += [("c", "bind_simple"), ("c", "bind_sasl"), ("c", "search"), ("c", "ext")]
+            if VARIANTS:
+                ev.append(("c", "ext_tls"))
         ev.append(("c", "unbind"))
     if w.s.state != S.CLOSED:
         for i, (kind, ne, nr) in sorted(w.srv_open.items()):
@@ -114,6 +122,8 @@ def enabled(w: World, kmax: int) -> t.List[Ev]:
                 ev.append(("s", "done", i))
             else:
                 ev.append(("s", "extresp", i))
+                if VARIANTS:
+                    ev.append(("s", "extresp_tls", i))
             ev.append(("s", "notice", i))
         ev.append(("s", "unbind", 0))
         ev.append(("s", "extresp", kmax + 1))  # an attempt the session must refuse (unknown id)
@@ -315,7 +325,9 @@ STATE_CAP = {"quick": 120_000, "thorough": 1_500_000}  # > 12x / 1.5x the state 
 BATCH = 20_000
 
 
-def explore(kmax: int, cuts: bool, known: t.Set[t.Tuple[str, str]], seed: int, cap: int = 1_500_000) -> t.Dict[str, t.Any]:
+def explore(kmax: int, cuts: bool, known: t.Set[t.Tuple[str, str]], seed: int, cap: int = 1_500_000, variants: bool = False) -> t.Dict[str, t.Any]:
+    global VARIANTS
+    VARIANTS = variants
     w0 = World()
     seen: t.Set[bytes] = {w0.key()}
     frontier: t.List[t.Any] = [(w0, [])]
@@ -430,9 +442,19 @@ def long_scenarios() -> t.Iterator[t.Tuple[str, t.List[t.List[t.Any]]]]:
             yield f"pipeline-{n}-{pattern}", h
 
 
+def backlog_scenarios() -> t.Iterator[t.Tuple[str, t.List[t.List[t.Any]]]]:
+    """Calls made while earlier output is still queued in the session (the application drains 700 octets per call): what
+    was accepted earlier must still arrive, whole and in order, whatever is called next -- in particular an unbind."""
+    yield "backlog-then-unbind-lag700", [["c", "ext_big"], ["c", "search"], ["c", "unbind"], ["flush", "c2s"]]
+    yield "backlog-bind-then-unbind-lag700", [["c", "bind_simple"], ["c", "unbind"], ["flush", "c2s"]]
+    yield "server-backlog-then-notice-lag700", [["c", "search"], ["c", "ext"], ["flush", "c2s"], ["s", "entry_big", 1], ["s", "entry", 1], ["s", "notice", 2], ["flush", "s2c"]]
+    yield "server-backlog-then-unbind-lag700", [["c", "search"], ["flush", "c2s"], ["s", "entry_big", 1], ["s", "done", 1], ["s", "unbind", 0], ["flush", "s2c"]]
+
+
 def run_long(ctx: evid.Ctx) -> None:
     scen = list(long_scenarios())
     scen += [(name + "-lag700", hist) for name, hist in scen if name.startswith("pipeline-30") or name == "pipeline-12-next"]
+    scen += list(backlog_scenarios())
     for name, hist in scen:
         lag = 700 if name.endswith("-lag700") else 0
         w = World()
@@ -509,6 +531,16 @@ def run(ctx: evid.Ctx) -> None:
     a, b = replay_history(h, kmax, cuts), replay_history(h, kmax, cuts)
     assert a == b, "replay is not deterministic"
     st = explore(kmax, cuts, set(ctx.known), ctx.seed, STATE_CAP[ctx.tier])
+    # the same search with the StartTLS-named extended request / response in the alphabet (K = 2)
+    st2 = explore(2, cuts, set(ctx.known), ctx.seed, STATE_CAP["quick"], variants=True)
+    explore.__globals__["VARIANTS"] = False
+    ctx.add("states_with_named_operations", st2["states"])
+    ctx.add("transitions", st2["transitions"])
+    ctx.add("traces_validated_against_impl", st2["transitions"])
+    ctx.distinct |= st2["outcomes"]
+    for k, e in st2["viol"].items():
+        ctx.violation(k, e["what"], {"K": 2, "cuts": cuts, "history": e["history"]}, e["count"])
+    st["capped"] = st["capped"] or st2["capped"]
     if st["capped"]:
         ctx.exhaustive = False
         ctx.note("INCOMPLETE", f"state cap {STATE_CAP[ctx.tier]} reached after {st['levels']} levels: the joint state space did not close (sessions that differ after every event?); violations found so far are reported")
